@@ -415,6 +415,72 @@ def D3(m, R):
                     child._parent = parent
             node2._parent = getattr(sf.node, '_parent', None)
             sf = Func(sf.mod, sf.cls, node2)
+        # the twin may itself be a thin wrapper `return self.X(...)`: a call of X with exactly the arguments the wrapper would pass is a call of the twin
+        tex0, _r0 = single_return(tw)
+        if wrapped and isinstance(tex0, ast.Call) and isinstance(tex0.func, ast.Attribute) and is_name(tex0.func.value, tw.self_name) and \
+                tex0.func.attr != name and tex0.func.attr in A.methods:
+            X = tex0.func.attr
+            callee = A.methods[X]
+            tb, _pr = bind_call(tex0, callee)
+            changed_ = False
+
+            class _Fold(ast.NodeTransformer):
+                def visit_Call(self_, c):
+                    nonlocal changed_
+                    self_.generic_visit(c)
+                    if not (isinstance(c.func, ast.Attribute) and c.func.attr == X and (norm(c.func.value) == wrapped or isinstance(c.func.value, ast.Name))):
+                        return c
+                    if is_name(c.func.value, selfn):
+                        return c
+                    cb, pr2 = bind_call(c, callee)
+                    if pr2 or any(k.startswith('*') for k in list(cb) + list(tb)):
+                        return c
+                    mp = {}
+                    pvars = tw.own_params() + tw.kwonly
+
+                    def unify(pat, ex):
+                        if isinstance(pat, ast.Name) and pat.id in pvars:
+                            if pat.id in mp:
+                                return norm(mp[pat.id]) == norm(ex)
+                            mp[pat.id] = ex
+                            return True
+                        if type(pat) is not type(ex):
+                            return False
+                        for fld, pv in ast.iter_fields(pat):
+                            if fld in ('ctx', 'lineno', 'col_offset', 'end_lineno', 'end_col_offset', 'kind', 'type_comment'):
+                                continue
+                            ev = getattr(ex, fld, None)
+                            if isinstance(pv, ast.AST):
+                                if not isinstance(ev, ast.AST) or not unify(pv, ev):
+                                    return False
+                            elif isinstance(pv, list):
+                                if not isinstance(ev, list) or len(pv) != len(ev) or not all(
+                                        unify(a_, b_) if isinstance(a_, ast.AST) else a_ == b_ for a_, b_ in zip(pv, ev)):
+                                    return False
+                            elif pv != ev:
+                                return False
+                        return True
+                    for p_, te in tb.items():
+                        if p_ not in cb:
+                            if isinstance(te, ast.Name) and te.id in pvars:
+                                continue        # the caller leaves it to the default: so does the call
+                            return c
+                        if not unify(te, cb[p_]):
+                            return c
+                    if any(p_ not in tb and norm(v_) != norm(callee.defaults.get(p_)) if callee.defaults.get(p_) is not None else p_ not in tb for p_, v_ in cb.items()):
+                        return c
+                    changed_ = True
+                    pos = [x for x in tw.own_params() if x in mp]
+                    return ast.copy_location(ast.Call(func=ast.Attribute(value=c.func.value, attr=name, ctx=ast.Load()), args=[],
+                                                      keywords=[ast.keyword(arg=x, value=mp[x]) for x in pos + [k for k in tw.kwonly if k in mp]]), c)
+            node3 = _Fold().visit(astcopy(sf.node))
+            if changed_:
+                ast.fix_missing_locations(node3)
+                for parent in ast.walk(node3):
+                    for child in ast.iter_child_nodes(parent):
+                        child._parent = parent
+                node3._parent = getattr(sf.node, '_parent', None)
+                sf = Func(sf.mod, sf.cls, node3)
         body = sf.body
         tw_inplace = 'inplace' in tw.own_params() + tw.kwonly
         tw_mutator = not _returns_value(tw)
@@ -481,7 +547,7 @@ def D3(m, R):
                 problems.append('second statement %s is not the mutating call on the copy' % short(s1))
             if not (call_name(r2.value) == 'AnsiStr' and len(r2.value.args) == 1 and is_name(r2.value.args[0], cv)):
                 problems.append('returns %s, not AnsiStr(%s)' % (short(r2.value), cv))
-            if not (tw_inplace or tw_mutator or name in ('__add__',)):
+            if not (tw_inplace or tw_mutator or name in ('__add__', '__iadd__')):
                 problems.append('twin is neither in-place capable nor a mutator: copy/call/re-wrap discards its result')
             R.check(not problems, sf, sf.node, 'copy; %s on the copy with the same arguments; re-wrap' % name, '; '.join(problems), construct=cons)
             continue
